@@ -1,1 +1,208 @@
+(* Totality of the record parser (C15): for every input, `parse_record` (with the complete
+   `space1`) answers Ok / Error / Failure -- never Incomplete (the `unreachable!()` of
+   error.rs) and never exhausts the fuel of the model's loops, because every loop
+   iteration consumes at least one byte. *)
+From Coq Require Import List Bool Arith NArith Lia.
+From Coq Require Import Init.Byte.
+From LMTransfac Require Import Bytes Nom NomProofs TransfacParse.
+Import ListNotations.
+Local Open Scope byte_scope.
 
+Lemma strict_parse_line : strict parse_line.
+Proof.
+  intros i. induction i as [|b t IH]; simpl; [exact I|].
+  destruct (is_nl b); simpl; [lia|].
+  destruct (parse_line t); simpl in *; auto.
+Qed.
+
+Lemma safe_parse_line : safe parse_line.
+Proof. apply strict_safe, strict_parse_line. Qed.
+
+Lemma tg_nonempty a b : tg a b <> [].
+Proof. discriminate. Qed.
+
+Lemma strict_tagged_line a b : strict (preceded (tag (tg a b)) parse_line).
+Proof. apply strict_preceded_l; [apply strict_tag, tg_nonempty|apply safe_parse_line]. Qed.
+
+Section Total.
+  Variable sp1 : parser str.
+  Hypothesis safe_sp1 : safe sp1.
+  Variable al : alpha.
+
+  Lemma strict_parse_symbol : strict (parse_symbol al).
+  Proof.
+    intros [|b r]; simpl; [exact I|]. destruct (sym_index al b); simpl; [lia|exact I].
+  Qed.
+
+  Lemma strict_parse_alphabet : strict (parse_alphabet sp1 al).
+  Proof.
+    unfold parse_alphabet. apply strict_delimited_l.
+    - apply strict_alt2; apply strict_tag, tg_nonempty.
+    - apply safe_preceded; [exact safe_sp1|].
+      apply safe_separated_list1; [exact safe_sp1|apply strict_safe, strict_parse_symbol].
+    - apply strict_safe, strict_line_ending.
+  Qed.
+
+  Lemma strict_parse_row k : strict (parse_row k).
+  Proof.
+    unfold parse_row. apply strict_delimited_l.
+    - apply strict_uint.
+    - apply safe_count, safe_delimited; [apply safe_space0|apply safe_float_token|apply safe_space0].
+    - apply safe_parse_line.
+  Qed.
+
+  Lemma strict_parse_date : strict parse_date.
+  Proof.
+    intros i. unfold parse_date.
+    pose proof (strict_terminated_l (tag (tg "D" "T")) space0
+                  (strict_tag _ (tg_nonempty _ _)) safe_space0 i) as H0.
+    destruct (terminated (tag (tg "D" "T")) space0 i) as [a0 r0| | | |]; simpl in *; auto.
+    pose proof (strict_terminated_l u8 (char_ ".") (strict_uint _) (strict_safe _ (strict_char _)) r0) as H1.
+    destruct (terminated u8 (char_ ".") r0) as [a1 r1| | | |]; simpl in *; auto.
+    pose proof (strict_terminated_l u8 (char_ ".") (strict_uint _) (strict_safe _ (strict_char _)) r1) as H2.
+    destruct (terminated u8 (char_ ".") r1) as [a2 r2| | | |]; simpl in *; auto.
+    pose proof (strict_uint 65535%N r2) as H3. fold u16 in H3.
+    destruct (u16 r2) as [a3 r3| | | |]; simpl in *; auto.
+    pose proof (safe_space0 r3) as H4.
+    destruct (space0 r3) as [a4 r4| | | |]; simpl in *; auto.
+    assert (S5 : safe (delimited (char_ "(") parse_datekind (char_ ")"))).
+    { apply safe_delimited; [apply strict_safe, strict_char| |apply strict_safe, strict_char].
+      unfold parse_datekind. apply safe_alt2; apply safe_tag. }
+    pose proof (S5 r4) as H5.
+    destruct (delimited (char_ "(") parse_datekind (char_ ")") r4) as [a5 r5| | | |]; simpl in *; auto.
+    assert (S6 : safe (delimited (char_ ";") (preceded space0 (take_till ".")) (char_ "."))).
+    { apply safe_delimited; [apply strict_safe, strict_char| |apply strict_safe, strict_char].
+      apply safe_preceded; [apply safe_space0|apply safe_take_till]. }
+    pose proof (S6 r5) as H6.
+    destruct (delimited (char_ ";") (preceded space0 (take_till ".")) (char_ ".") r5) as [a6 r6| | | |];
+      simpl in *; auto.
+    pose proof (strict_parse_line r6) as H7.
+    destruct (parse_line r6) as [a7 r7| | | |]; simpl in *; auto. lia.
+  Qed.
+
+  Lemma strict_parse_reference_number : strict parse_reference_number.
+  Proof.
+    intros i. unfold parse_reference_number.
+    assert (S0 : strict (preceded (terminated (tag (tg "R" "N")) space0)
+                                  (delimited (char_ "[") u32 (char_ "]")))).
+    { apply strict_preceded_l.
+      - apply strict_terminated_l; [apply strict_tag, tg_nonempty|apply safe_space0].
+      - apply safe_delimited; [apply strict_safe, strict_char|apply strict_safe, strict_uint
+                              |apply strict_safe, strict_char]. }
+    pose proof (S0 i) as H0.
+    destruct (preceded (terminated (tag (tg "R" "N")) space0) (delimited (char_ "[") u32 (char_ "]")) i)
+      as [num rest| | | |]; cbn [pbind ok_lt] in *; auto.
+    destruct (starts_with [";"] rest).
+    - assert (S1 : safe (delimited (char_ ";") (take_till ".") (char_ "."))).
+      { apply safe_delimited; [apply strict_safe, strict_char|apply safe_take_till
+                              |apply strict_safe, strict_char]. }
+      pose proof (S1 rest) as H1.
+      destruct (delimited (char_ ";") (take_till ".") (char_ ".") rest) as [x r1| | | |];
+        cbn [pbind ok_lt ok_le] in *; auto.
+      pose proof (strict_parse_line r1) as H2.
+      destruct (parse_line r1) as [x2 r2| | | |]; cbn [pbind ok_lt ok_le] in *; auto. lia.
+    - pose proof (strict_parse_line i) as H2.
+      destruct (parse_line i) as [x2 r2| | | |]; cbn [pbind ok_lt ok_le] in *; auto.
+  Qed.
+
+  Lemma reference_loop_ok : forall f i pm li ti,
+    length i < f -> ok_le (length i) (reference_loop f i pm li ti).
+  Proof.
+    induction f as [|f IH]; intros i pm li ti L; [lia|].
+    cbn [reference_loop].
+    destruct (negb (has_two_chars i)); [exact I|].
+    assert (K : forall (A : Type) (p : parser A) (k : A -> str -> pres (option str * option str * option str)),
+               strict p ->
+               (forall a r, length r < length i -> ok_le (length r) (k a r)) ->
+               ok_le (length i) (pbind (p i) k)).
+    { intros A p k Sp Hk. pose proof (Sp i) as H. destruct (p i); cbn [pbind ok_lt ok_le] in *; auto.
+      eapply ok_le_mono; [|apply Hk; exact H]. lia. }
+    destruct (starts_with (tg "R" "X") i).
+    { apply K.
+      - apply strict_preceded_l.
+        + apply strict_preceded_l; [apply strict_terminated_l; [apply strict_tag, tg_nonempty|apply safe_space0]|].
+          apply safe_terminated; [apply safe_tag|apply safe_space0].
+        + apply safe_terminated; [apply safe_take_till|apply strict_safe, strict_char].
+      - intros a r Lr. pose proof (strict_parse_line r) as H.
+        destruct (parse_line r) as [x r'| | | |]; cbn [pbind ok_lt ok_le] in *; auto.
+        eapply ok_le_mono; [|apply IH]; lia. }
+    destruct (starts_with (tg "R" "A") i).
+    { apply K; [apply strict_tagged_line|]. intros a r Lr. apply IH. lia. }
+    destruct (starts_with (tg "R" "L") i).
+    { apply K; [apply strict_tagged_line|]. intros a r Lr. apply IH. lia. }
+    destruct (starts_with (tg "R" "T") i).
+    { apply K; [apply strict_tagged_line|]. intros a r Lr. apply IH. lia. }
+    simpl. lia.
+  Qed.
+
+  Lemma strict_parse_reference : strict parse_reference.
+  Proof.
+    intros i. unfold parse_reference.
+    pose proof (strict_parse_reference_number i) as H0.
+    destruct (parse_reference_number i) as [num rest| | | |]; cbn [pbind ok_lt ok_le] in *; auto.
+    pose proof (reference_loop_ok (S (length rest)) rest None None None (Nat.lt_succ_diag_r _)) as H1.
+    destruct (reference_loop (S (length rest)) rest None None None) as [[[pm li] ti] r'| | | |];
+      cbn [pbind ok_lt ok_le] in *; auto. lia.
+  Qed.
+
+  (* the loop of parse_record: with more fuel than input bytes it never runs out *)
+  Lemma record_loop_ok : forall f i r,
+    length i < f -> ok_le (length i) (record_loop sp1 al f i r).
+  Proof.
+    induction f as [|f IH]; intros i r L; [lia|].
+    cbn [record_loop].
+    destruct (parse_tag i) as [[k [a b]] rest0| | | |] eqn:PT; cbn [pbind ok_le]; auto.
+    2,3: (unfold parse_tag in PT; destruct i as [|x [|y t]]; try discriminate;
+          destruct (classify x y); discriminate).
+    cbn [fst snd].
+    assert (K : forall (A : Type) (p : parser A) (k : A -> str -> pres record),
+               strict p ->
+               (forall a r, length r < length i -> ok_le (length r) (k a r)) ->
+               ok_le (length i) (pbind (p i) k)).
+    { intros A p k0 Sp Hk. pose proof (Sp i) as H. destruct (p i); cbn [pbind ok_lt ok_le] in *; auto.
+      eapply ok_le_mono; [|apply Hk; exact H]. lia. }
+    assert (R : forall r0 rest, length rest < length i -> ok_le (length rest) (record_loop sp1 al f rest r0)).
+    { intros r0 rest Lr. apply IH. lia. }
+    destruct k.
+    - apply K; [apply strict_tagged_line|]. intros; apply R; assumption.
+    - apply K; [apply strict_tagged_line|]. intros; apply R; assumption.
+    - apply K; [apply strict_tagged_line|]. intros; apply R; assumption.
+    - apply K; [apply strict_tagged_line|]. intros; apply R; assumption.
+    - apply K; [apply strict_many1, strict_tagged_line|]. intros; apply R; assumption.
+    - apply K; [apply strict_tagged_line|]. intros; apply R; assumption.
+    - apply K; [apply strict_tagged_line|]. intros; apply R; assumption.
+    - apply K; [apply strict_parse_date|]. intros; apply R; assumption.
+    - apply K; [apply strict_tagged_line|]. intros; apply R; assumption.
+    - apply K; [apply strict_tagged_line|]. intros; apply R; assumption.
+    - apply K; [apply strict_parse_alphabet|]. intros syms rest Lr.
+      pose proof (strict_many1 _ (strict_parse_row (length syms)) rest) as H.
+      destruct (many1 (parse_row (length syms)) rest) as [rows rest'| | | |]; cbn [pbind ok_lt ok_le] in *; auto.
+      eapply ok_le_mono; [|apply R]; lia.
+    - apply K; [apply strict_parse_reference|]. intros; apply R; assumption.
+    - apply K; [apply strict_parse_line|]. intros; apply R; assumption.
+    - apply K.
+      + apply strict_preceded_l; [apply strict_tag, tg_nonempty|].
+        apply safe_alt2; [apply safe_parse_line|apply safe_eof].
+      + intros a0 r0 Lr. simpl. lia.
+  Qed.
+
+  Theorem parse_record_total i :
+    parse_record sp1 al i <> PIncomplete /\ parse_record sp1 al i <> PFuel.
+  Proof.
+    unfold parse_record.
+    pose proof (record_loop_ok (S (length i)) i empty_record (Nat.lt_succ_diag_r _)) as H.
+    destruct (record_loop sp1 al (S (length i)) i empty_record); simpl in H; try contradiction;
+      split; discriminate.
+  Qed.
+End Total.
+
+Theorem parse_record_fixed_total al i :
+  parse_record_fixed al i <> PIncomplete /\ parse_record_fixed al i <> PFuel.
+Proof. apply parse_record_total. exact safe_space1_complete. Qed.
+
+Lemma parse_version_total i : parse_version i <> PIncomplete /\ parse_version i <> PFuel.
+Proof.
+  pose proof (strict_tagged_line "V" "V" i) as H. unfold parse_version.
+  change (tag (tg "V" "V")) with (tag (tg "V" "V")) in H.
+  destruct (preceded (tag (tg "V" "V")) parse_line i); simpl in H; try contradiction; split; discriminate.
+Qed.
